@@ -135,7 +135,8 @@ Record case := {
 
 
 
-(** defect class "stale-hcount-aromatic": after squash_atoms a merged aromatic atom still carries the
+(** FORMER defect class "stale-hcount-aromatic" (repaired by /repo e7bad38; the predicate is kept: the Example
+    C10_fixed_stale_hcount_aromatic shows it is false on the old witness): after squash_atoms a merged aromatic atom still carries the
     hydrogen count of the kept copy, computed inside that copy's own fragment, so that its bonds plus
     hcount exceed the valence; pysmiles' aromaticity correction (which reads hcount) then drops the
     atom from the ring it kekulises *)
@@ -155,7 +156,7 @@ Definition stale_hcount_aromatic (o : obs_graph) : bool :=
   existsb (fun p => stale_node o (fst p) (snd p)) (fst o).
 
 (** the hypotheses of the totality / count theorems hold of the recorded input of squash_atoms *)
-Definition hyps_ok (g : graph) : bool := wf_graphb g && bondings_okb g && typed_gb g.
+Definition hyps_ok (g : graph) : bool := wf_graphb g && bondings_okb g && typed_gb g && hnum_gb g.
 
 Definition squash_call_ok (g : graph) (r : option obs_graph) : bool :=
   hyps_ok g &&
@@ -175,17 +176,9 @@ Definition corr_ok (c : case) : bool :=
   | _, _ => false
   end.
 
-(** a failing input that lies in the listed defect class is reported with the class's code (12); the class
-    predicate is evaluated here, in Coq, with the definition the refutation theorem uses.  (The classes
-    redundant-squash-cycle / stale-squashed-entry, codes 11 / 13, were repaired by /repo commit 03eb080.) *)
-Definition classify (c : case) (code : nat) : nat :=
-  match code with
-  | 0%nat => 0%nat
-  | _ => match c_sq1 c with
-         | Some o => if stale_hcount_aromatic o then 12%nat else code
-         | None => code
-         end
-  end.
+(** no defect class is open any more (codes 11 / 13 repaired by /repo 03eb080, 12 by e7bad38): every failing
+    input keeps its plain code *)
+Definition classify (c : case) (code : nat) : nat := code.
 
 Definition base_fail (c : case) : nat :=
   match c_shared c with
